@@ -84,6 +84,13 @@ class ListWrapper(typing.MutableSequence[T]):
             assert isinstance(v, typing.Iterable)
             indices = range(*i.indices(len(self)))
             values = list(v)
+            if i.step not in (None, 1) and len(values) != len(indices):
+                # Check before any element is removed or added, so that a
+                # failed assignment leaves the list and its elements alone.
+                raise ValueError(
+                    "attempt to assign sequence of size %d to extended "
+                    "slice of size %d" % (len(values), len(indices))
+                )
         elif -len(self._data) <= i.__index__() < len(self._data):
             indices = range(i.__index__(), i.__index__() + 1)
             values = [typing.cast(T, v)]
